@@ -63,3 +63,16 @@ func TestVerifE4Smoke(t *testing.T) {
 	}
 	_ = netip.Addr{}
 }
+
+func TestVerifE4SmokeRelay(t *testing.T) {
+	net := vRelayNet(t, 3)
+	defer net.close()
+	a, b := net.node("a"), net.node("b")
+	if !net.establish(a, b, "VIA-RELAY-1") {
+		t.Fatalf("relayed packet never arrived; inflight=%v\nA=%s\nR=%s", net.inflight, vJSON(a.snapshot(vSnapOpts{})), vJSON(net.node("r").snapshot(vSnapOpts{})))
+	}
+	if !net.establish(b, a, "VIA-RELAY-2") {
+		t.Fatalf("reverse relayed packet never arrived")
+	}
+	fmt.Println("A:", a.tunnels(), "\nR:", net.node("r").tunnels(), "\nB:", b.tunnels())
+}
